@@ -120,7 +120,7 @@ def parse_generic(parser, bname, elts, P):
     if bname in ('dict', 'Dict', 'Mapping') and len(elts) == 2:
         kn = key_name_of(P(elts[0]))
         vt = P(elts[1])
-        if kn is not None and vt[0] in ('bool', 'int'):
+        if kn is not None and vt[0] in ('bool', 'int', 'key', 'set'):   # absnodes: key / set values
             return ('map', kn, vt)
         return None
     if bname in ('set', 'Set', 'frozenset') and len(elts) == 1:
@@ -143,6 +143,9 @@ def fresh(P, typ, name):
     k = typ[0]
     if k == 'key':
         return SymKey(z3.Const(name, key_sort(typ[1])), typ[1])
+    if k == 'map' and typ[2][0] in ('key', 'set'):   # absnodes
+        from . import absnodes
+        return absnodes.fresh_map(P, typ, name)
     if k == 'map':
         s = key_sort(typ[1])
         pf = z3.Function(name + '#in', s, z3.BoolSort())
@@ -251,7 +254,8 @@ def _coerce_val(m: SymMap, v):
         if not is_intlike(v) or is_boollike(v):
             raise Unsupported(f'non-int value {v!r} stored in a dict[{m.kname}, int]')
         return as_z3int(v)
-    raise Unsupported(f'map value type {m.vtyp}')
+    from . import absnodes   # absnodes
+    return absnodes.coerce_value(m, v)
 
 
 def map_getitem(P, m: SymMap, k):
@@ -259,7 +263,8 @@ def map_getitem(P, m: SymMap, k):
     t = _kterm(m, k)
     if not P.branch(simp(_b(m.present(t))), 'key-present'):
         raise SymRaise(mk_exc('KeyError'))
-    return simp(m.value(t))
+    from . import absnodes   # absnodes: key / set values
+    return absnodes.wrap_value(m, m.value(t))
 
 
 def _mutate(P, c):
@@ -674,7 +679,7 @@ def loop_rule(P, st, fr, it):
                 b[k] = fr.locals[k] = P.force(b[k])
         b.pop('done', None)
         names = [a.arg for a in inv.node.args.args]
-        miss = [n for n in names if n not in ('done', 'old') and n not in b]
+        miss = [n for n in names if n not in ('done', 'old', 'self') and n not in b]
         if miss:
             raise InterpError(f'{inv.qualname}: parameters {miss} are not locals in scope at the loop')
         return ex._call_spec(P, inv, b, {'done': done, 'old': getattr(P, 'old', None)})
@@ -753,6 +758,9 @@ def concretize_entry(cz, typ, name):
     if k == 'key':
         v = m.eval(z3.Const(name, key_sort(typ[1])), model_completion=True)
         return {'$key': typ[1], 'name': str(v)}
+    if k == 'map' and typ[2][0] in ('key', 'set'):   # absnodes
+        from . import absnodes
+        return concretize_value(cz, absnodes.fresh_map(None, typ, name))
     if k == 'map':
         s = key_sort(typ[1])
         pf = z3.Function(name + '#in', s, z3.BoolSort())
@@ -785,7 +793,13 @@ def concretize_value(cz, v):
         items = []
         for u in universe(m, v.kname):
             if z3.is_true(m.eval(_b(v.present(u)), model_completion=True)):
+                if v.vtyp[0] == 'set':   # absnodes
+                    items.append([str(u), concretize_value(cz, v.value(u))])
+                    continue
                 val = m.eval(v.value(u), model_completion=True)
+                if v.vtyp[0] == 'key':   # absnodes
+                    items.append([str(u), {'$key': v.vtyp[1], 'name': str(val)}])
+                    continue
                 items.append([str(u), z3.is_true(val) if v.vtyp[0] == 'bool' else val.as_long()])
         return {'$map': v.kname, 'items': items, 'universe': [str(u) for u in universe(m, v.kname)]}
     if isinstance(v, SymSet):
